@@ -1921,3 +1921,57 @@ Theorem C15_matrix_families_ok_all :
   forall c : FamiliesRun.mcall, mcall_ok c = true.
 Proof. exact @matrix_families_ok_all. Qed.
 Print Assumptions C15_matrix_families_ok_all.
+
+From V Require Import Base Perm PermProofs Families ClassEnumCycles ClassEnumGeneral DerangementsGeneral ConjugacyClassesGeneral.
+
+(* derangements(n), GENERAL n >= 2: the generators are exactly the permutations of n points without fixed points, each once *)
+Theorem C15_derangements_spec :
+  forall N : nat,
+         2 <= N ->
+         exists d : pdef,
+           derangements (BinInt.Z.of_nat N) = Ok d /\
+           (forall p : list nat, List.In p (p_gens d) <-> Derangement N p) /\
+           List.NoDup (p_gens d) /\
+           length (p_names d) = length (p_gens d) /\ p_central d = of_nats (List.seq 0 N).
+Proof. exact @derangements_spec. Qed.
+Print Assumptions C15_derangements_spec.
+
+(* involutive_derangements(n), GENERAL even n >= 2: exactly the fixed-point-free involutions, each once *)
+Theorem C15_involutive_derangements_spec :
+  forall N : nat,
+         2 <= N ->
+         PeanoNat.Nat.Even N ->
+         exists d : pdef,
+           involutive_derangements (BinInt.Z.of_nat N) = Ok d /\
+           (forall p : list nat, List.In p (p_gens d) <-> InvDerangement N p) /\
+           List.NoDup (p_gens d) /\
+           length (p_names d) = length (p_gens d) /\ p_central d = of_nats (List.seq 0 N).
+Proof. exact @involutive_derangements_spec. Qed.
+Print Assumptions C15_involutive_derangements_spec.
+
+(* and it asserts for n < 2 or odd n *)
+Theorem C15_involutive_derangements_bad :
+  forall n : BinNums.Z,
+         BinInt.Z.lt n (BinNums.Zpos (BinNums.xO BinNums.xH)) \/
+         BinInt.Z.modulo n (BinNums.Zpos (BinNums.xO BinNums.xH)) <> BinNums.Z0 ->
+         involutive_derangements n = Err AssertionErr.
+Proof. exact @involutive_derangements_bad. Qed.
+Print Assumptions C15_involutive_derangements_bad.
+
+(* conjugacy_classes(n, classes) with full classes, GENERAL: exactly the permutations whose cycle type (padded with fixed points) is one of the requested ones *)
+Theorem C15_conjugacy_classes_spec :
+  forall (N : nat) (classes : list (list BinNums.Z)) (shuffles : list (list nat)),
+         1 <= N ->
+         classes <> nil ->
+         (forall cl : list BinNums.Z, List.In cl classes -> class_valid N cl) ->
+         exists d : pdef,
+           conjugacy_classes (BinInt.Z.of_nat N)
+             (List.map (fun cl : list BinNums.Z => (cl, None)) classes) shuffles = 
+           Ok d /\
+           (forall p : list nat,
+            List.In p (p_gens d) <->
+            (exists cl : list BinNums.Z,
+               List.In cl classes /\ length p = N /\ Perm p /\ cycle_type p = class_type N cl)) /\
+           length (p_names d) = length (p_gens d) /\ p_central d = of_nats (List.seq 0 N).
+Proof. exact @conjugacy_classes_spec. Qed.
+Print Assumptions C15_conjugacy_classes_spec.
